@@ -472,6 +472,12 @@ class Emitter:
     def e_array(self, e, env, k):
         return self.exprs(e.elems, env, lambda ts, tys, env1: k("[" + "; ".join(ts) + "]", ("list", tys[0] if tys else UNKNOWN), env1))
 
+    def e_arrayrep(self, e, env, k):
+        # `[v; n]` with a literal length: n copies of v (the element adopts its suffix type, e.g. `[0u8; 19]`)
+        if e.n.kind != "int":
+            raise EmitError("array repeat expression with a computed length")
+        return self.expr(e.e, env, lambda t, ty, env1: k("(repeat %s %d%%nat)" % (t, e.n.val), ("list", ty), env1))
+
     def e_unary(self, e, env, k):
         if e.op in ("&", "&mut", "*"):
             return self.expr(e.e, env, k)
